@@ -7,6 +7,7 @@ use serde::{Deserialize, Serialize};
 use std::collections::HashMap;
 use std::sync::{Arc, Mutex};
 
+use super::multi::{self, Multi};
 use super::sm2util::*;
 use crate::engine::*;
 use crate::gen;
@@ -46,6 +47,8 @@ pub enum Tamper {
     RandomRS(u64),
     /// (r, s) built with the private key so that [s]G + [r+s]P is the point at infinity: r = e mod n, s = -r d (1+d)^-1
     InfinityForgery,
+    /// a multi-byte alteration (see props/multi.rs) of region 0: r, 1: s, 2: r||s
+    Multi(u8, Multi),
 }
 
 fn edges() -> Vec<BigUint> {
@@ -205,6 +208,17 @@ pub fn check(c: &Case) -> CaseResult {
             put(&mut sig, 1, &ss);
             class = "sum-is-infinity";
         }
+        Tamper::Multi(region, m) => {
+            let (lo, hi, name) = match region % 3 {
+                0 => (0, 32, "multi-r"),
+                1 => (32, 64, "multi-s"),
+                _ => (0, 64, "multi-rs"),
+            };
+            if !multi::apply(&mut sig[lo..hi], m) {
+                return pass(false, "multi-noop");
+            }
+            class = name;
+        }
     }
     let (id_b, id_opt) = id_bytes(id_idx);
     // IDs None and Some("1234567812345678") are the same signer ID: that is not a tampering
@@ -252,6 +266,7 @@ pub fn tamper_strategy() -> impl Strategy<Value = Tamper> {
         2 => any::<u64>().prop_map(Tamper::RandomRS),
         2 => Just(Tamper::InfinityForgery),
         1 => Just(Tamper::None),
+        5 => (0..3u8, multi::strategy()).prop_map(|(r, m)| Tamper::Multi(r, m)),
     ]
 }
 
@@ -274,7 +289,7 @@ pub fn run(ctx: &Ctx) {
     ctx.set_rule(
         "a case is (base, tampering): the base is a valid signature made by the *reference* signer for generated (d, ID, message, k); tamperings: every one of the 512 single-bit flips of r||s \
          (exhaustive per base), r or s replaced by {0, 1, n-1, n, n+1, 2^256-1, p, 2^255}, s = n-r, swapped r/s, r+n and s+n when they fit, message bit flip / truncation / extension, another ID, \
-         another key (-P, P+G, unrelated), every signature length 0..=130 (truncation, extension by zeros / 0xFF / random), independent random (r,s), and the untouched signature. \
+         another key (-P, P+G, unrelated), every signature length 0..=130 (truncation, extension by zeros / 0xFF / random), independent random (r,s), multi-byte alterations of r / s / r||s that preserve the xor, the sum or the multiset of the bytes or words, and the untouched signature. \
          Oracle: the reference verifier decides; the library must return Ok exactly when the reference accepts; a panic is a violation. Non-trivial: a case the reference rejects.",
     );
     ctx.assume("reference verifier (harness/src/refimpl/sm2.rs): independent verification equation and ZA; exactly-64-byte rule from the property statement");
@@ -303,6 +318,23 @@ pub fn run(ctx: &Ctx) {
                     }
                     v.push(Case { base: b.clone(), tamper: Tamper::Length(l, f) });
                 }
+            }
+        }
+        v
+    }, check);
+
+    let nbm = ctx.tier.pick(3, 24);
+    ctx.exhaustive("multi_byte_alterations", "alterations of r (all byte pairs x 3 masks, sum-preserving pairs, rotations, word shuffles, partial keeps, 100 replacements) and of s / r||s (pairs at word distances) that keep the xor, the sum or the multiset of the bytes or words — a folded or partial comparison of R with r accepts them", move || {
+        let mut v = Vec::new();
+        for b in fixed_bases(seed ^ 0x66, nbm) {
+            for m in multi::family(32, true, 100) {
+                v.push(Case { base: b.clone(), tamper: Tamper::Multi(0, m) });
+            }
+            for m in multi::family(32, false, 16) {
+                v.push(Case { base: b.clone(), tamper: Tamper::Multi(1, m) });
+            }
+            for m in multi::family(64, false, 16) {
+                v.push(Case { base: b.clone(), tamper: Tamper::Multi(2, m) });
             }
         }
         v
